@@ -91,7 +91,7 @@ def enc_one(f, g, x):
         else:
             payload = enc_fields_in_gen_order(ty["fields"], gty["fields"] if gty and gty["k"] == "struct" else ty["fields"], y)
         t = b"" if f["tag"] is None else layouts.tag_bytes(f["tag"])
-        return t + layouts.len_prefix(f["length"], len(payload)) + payload
+        return t + layouts.place(f, ty, payload)
     return go(f["ty"], g["ty"] if g else None, x)
 
 
